@@ -81,7 +81,10 @@ fn ray_aabb(
 ) -> Option<(Real, Vector<Real>, isize)> {
     use crate::query::clip;
     clip::clip_aabb_line(aabb, &ray.origin, &ray.dir).and_then(|(near, far)| {
-        if near.0 < 0.0 {
+        if far.0 < 0.0 {
+            // The Aabb is behind the ray.
+            None
+        } else if near.0 < 0.0 {
             if solid {
                 Some((0.0, na::zero(), far.2))
             } else if far.0 <= max_time_of_impact {
